@@ -221,11 +221,15 @@ PROPS["C13"] = {
              "points (before the head exchange, before the link store, before the eventfd write, before the tail->next load, before the eventfd drain). Depth-first enumeration of ALL "
              "schedules for 1x1, 1x2, 1x3, 2x1 (with and without an early poll), partitioned over processes by the first two choices; generated schedules (choice stream = which runnable "
              "thread continues) for 1..3 x 1..3. Oracle per schedule: multiset popped = pushed, per-producer order, and no state where the consumer waits for the eventfd with items queued "
-             "and all producers finished (missed wake-up). Non-trivial = a producer step lands between two consumer steps of one drain; distinct = hash of (configuration, choice string)."),
+             "and all producers finished (missed wake-up). Non-trivial = a producer step lands between two consumer steps of one drain; distinct = hash of (configuration, choice string). "
+             "Last stage (c13_drains.cc): the framework's own consumers. A live Http::Experimental::Client (1-2 I/O threads, 0-3 idle connections) against scripted raw servers; the I/O thread is held "
+             "inside a completion callback while a generated batch of 1-5 entries is queued from the application thread - connects that fail on the spot (unroutable address), new connections, "
+             "requests on open connections - then released, and nothing further is pushed: every answerable request must be answered within 3 s (if not, one unrelated later request shows whether "
+             "the entries were stranded or lost). Non-trivial there = an answerable entry queued behind a connect that fails on the spot while the thread was held."),
     "engine": "cooperative scheduler (harness/common/sched.h) + rapidcheck",
     "technique": "systematic schedule enumeration (stateless depth-first search over a harness-owned cooperative scheduler at the hook points) plus rapidcheck-generated schedules; oracle = history invariants (multiset, per-producer order, no missed wake-up)",
     "level_text": "Every sequentially consistent interleaving at hook-point granularity is executed for the small configurations (exhaustive: true refers to those); larger configurations are sampled. Real code, real eventfd/epoll objects.",
-    "level_note": "Sequentially consistent interleavings only, at the granularity of the five hook points (what the property quantifies over); weak-memory effects are not explored. Needs the PISTACHE_VERIF_HOOKS yield points in mailbox.h.",
+    "level_note": "Sequentially consistent interleavings only, at the granularity of the five hook points (what the property quantifies over); weak-memory effects are not explored. Needs the PISTACHE_VERIF_HOOKS yield points in mailbox.h. Of the framework's five drain loops the last stage runs the client's two (connection queue, request queue); the server transport's write queue is driven by C06's harness, its peer and timer queues by C08/C09 traffic only.",
     "assumptions": ["the five yield points are the only accesses to state shared between producer and consumer", "poll(eventfd, 0) is the readiness the event loop would see (level-triggered registration)"],
     "quick": {"stages": [{"kind": "replay"},
                          {"kind": "enum", "scope": "all schedules of 1x1, 1x2, 1x3, 2x1 with 0 and 1 early poll (2x1+early-poll capped at 400000 schedules per partition)",
@@ -246,7 +250,7 @@ PROPS["C12"] = {
     "fuzz": False,
     "rule": ("the case is a thread schedule over a scenario: S1 settle(P) || P.then(f,r); S2 settle(P) || P.then(f1);P.then(f2); S3 P2=P.then(f) attached beforehand, settle(P) || P2.then(g) "
              "(attach to the derived promise while the parent's continuation settles it); S4 settle(P) || P2=P.then(f);P2.then(g); S5 = S3 with f returning a promise settled by a third thread; "
-             "each x {fulfil, reject} x {Promise<int>, Promise<void>}. Real threads run under a cooperative scheduler that switches only at the hook points in async.h (unlocked state check, "
+             "each x {fulfil, reject} x {Promise<int>, Promise<void>} (parent type). Real threads run under a cooperative scheduler that switches only at the hook points in async.h (unlocked state check, "
              "lock acquisition, state store, each continuation-walk step, state test / append in then(), run-count test, derived store / derived walk). Depth-first enumeration of ALL schedules "
              "for S1-S4 (quick) and S5 (bounded), plus generated schedules from the choice stream. Oracle per schedule: every continuation ran exactly once on the right branch with the settled "
              "value / exception, no deadlock, no sanitizer report. Non-trivial = a context switch strictly inside the attacher's state-test..append window or inside the settler's store-and-walk; "
@@ -254,7 +258,7 @@ PROPS["C12"] = {
     "engine": "cooperative scheduler (harness/common/sched.h) + rapidcheck",
     "technique": "systematic schedule enumeration (stateless depth-first search over a harness-owned cooperative scheduler at the hook points in async.h) plus rapidcheck-generated schedules; oracle = exactly-once / right-outcome counters per continuation, deadlock detection, ASan",
     "level_text": "Every sequentially consistent interleaving at hook-point granularity is executed for scenarios S1-S4 (exhaustive: true refers to those); S5 is enumerated up to a cap and sampled.",
-    "level_note": "Sequentially consistent interleavings at hook-point granularity only; the lock hook never changes who may take a lock, only where a thread waits. Needs the PISTACHE_VERIF_HOOKS points in async.h. Data-race freedom in the C++ memory-model sense is only indirectly covered (ASan on iterator invalidation).",
+    "level_note": "Sequentially consistent interleavings at hook-point granularity only; the lock hook is a plain yield point and pthread_mutex_lock is interposed by the harness, so that a lock the code takes waits cooperatively in the scheduler and a lock it no longer takes excludes nobody. Needs the PISTACHE_VERIF_HOOKS points in async.h. Data-race freedom in the C++ memory-model sense is only indirectly covered (ASan on iterator invalidation).",
     "assumptions": ["the hook points cover every access to promise-core state shared between the settling and the attaching thread"],
     "quick": {"stages": [{"kind": "replay"},
                          {"kind": "enum", "scope": "all schedules of S1-S4 x {fulfil,reject} x {int,void}",
@@ -407,11 +411,16 @@ PROPS["C15"] = {
              "request: settled at most once; fulfilled only with the response whose X-Tag and body carry its own tag; fulfilled if the server wrote a complete well-formed response at least "
              "250 ms before its time-out; rejected if it reached the server and its time-out expired (within time-out + 2 s for never-answered ones). Server side: sampled simultaneous "
              "connections never above the limit twice in a row; no bytes of a second request before the previous response. Non-trivial = more requests than the limit and >=2 behaviours, one of "
-             "them delayed or dribbled; distinct = hash of the case. oracle_subchecks = batches run."),
+             "them delayed or dribbled; distinct = hash of the case. oracle_subchecks = batches run. "
+             "Second harness (c15_foreign_fd.cc, last stage): p idle keep-alive connections, then 1-3 rounds in which the client's I/O thread is held inside a completion callback while the scripted "
+             "server closes c of the idle connections (end-of-stream pending at the client) and n requests are issued from the application thread, the first ones onto the connections about to be "
+             "found closed; close(), connect() and send() are interposed and every descriptor number the client closes is re-occupied at once by a socket the harness owns, so that a request "
+             "written to a stale number arrives at the harness. Oracle: nothing is ever written there, every fulfilled request carries its own tag, none is settled twice, requests on connections "
+             "the server never closed are fulfilled. Non-trivial there = a held round with at least one closed connection pending."),
     "engine": "rapidcheck",
     "technique": "property-based testing (rapidcheck) of the real client against a generated scripted server (response segmentation, delays, closes, malformed and missing answers as injected behaviours); oracle = per-request tag matching and settlement accounting, server-side connection invariants",
     "level_text": "Generated batches x server behaviours; OS-level interleavings between client threads are sampled, not owned. Exploration only.",
-    "level_note": "A request the server never saw (sent on a connection the server had already closed) may be rejected. Time-related verdicts follow the 3x replay rule. Requests stay far below the socket buffer size.",
+    "level_note": "A request the server never saw (sent on a connection the server had already closed) may be rejected. Time-related verdicts follow the 3x replay rule. Requests stay far below the socket buffer size. Hosts that refuse the connection are outside the quantifier and not generated (investigation switch VERIF_C15_REFUSED; see DESIGN.md 8.2).",
     "assumptions": ["250 ms of slack between the server finishing a response and the request's time-out is enough for loopback delivery"],
     "quick": {"stages": [{"kind": "replay"}, {"kind": "rc", "procs": 6, "cases": 18, "maxlen": 400},
                          {"kind": "rc", "source": "c15_foreign_fd.cc", "procs": 4, "cases": 30, "maxlen": 100}]},
